@@ -102,6 +102,7 @@ func IntConst(v *big.Int) *Term {
 }
 
 var bigConstSeq int64
+
 func IntConst64(v int64) *Term { return IntConst(big.NewInt(v)) }
 
 func BVConst(w int, v *big.Int) *Term {
